@@ -80,6 +80,37 @@ def _tx_events(args):
                    [o(lambda p=p: tx.cds.sequence_pos_to_amino_acid(p)) for p in rng_p],
                    E.loc_outcome(tx.get_5p_interval), E.loc_outcome(tx.get_3p_interval),
                    E.loc_outcome(lambda: tx.chromosome_intron_location), E.loc_outcome(lambda: tx.chromosome_span)])
+        if len(blocks) >= 2 and rnd.random() < 0.3:
+            # two transcripts that carry the SAME explicit identifier, lie on the same chromosome and share their outer
+            # bounds and strand, but differ in an inner splice site (an edited copy: to_dict -> change -> from_dict keeps
+            # the GUID).  The first is asked first; the second answers for its OWN exon structure
+            import uuid
+
+            gid = uuid.UUID(int=rnd.getrandbits(128))
+            b2 = [list(b) for b in blocks]
+            i = rnd.randrange(len(b2) - 1)
+            if b2[i][1] - b2[i][0] >= 2:
+                b2[i][1] -= 1
+            elif b2[i + 1][1] - b2[i + 1][0] >= 2:
+                b2[i + 1][0] += 1
+            else:
+                b2 = None
+            if b2:
+                par_ = tx._parent_or_seq_chunk_parent
+                t1 = mk_tx(blocks, st, None, None, parent=par_, guid=gid)
+                t1.chromosome_location, t1.transcript_pos_to_sequence(0)
+                t2 = mk_tx(b2, st, None, None, parent=par_, guid=gid)
+                n2 = len(t2)
+                ev.append(["tx", [b2, st], [[], "e"], G,
+                           [o(lambda p=p: t2.sequence_pos_to_transcript(p)) for p in rng_p],
+                           [o(lambda i=i: t2.transcript_pos_to_sequence(i)) for i in range(-1, n2 + 1)],
+                           [o(lambda p=p: t2.sequence_pos_to_cds(p)) for p in rng_p],
+                           [o(lambda i=i: t2.cds_pos_to_sequence(i)) for i in range(-1, 1)],
+                           [o(lambda i=i: t2.transcript_pos_to_cds(i)) for i in range(-1, n2 + 1)],
+                           [o(lambda i=i: t2.cds_pos_to_transcript(i)) for i in range(-1, 1)],
+                           [o(lambda p=p: t2.cds.sequence_pos_to_amino_acid(p)) for p in rng_p],
+                           E.loc_outcome(t2.get_5p_interval), E.loc_outcome(t2.get_3p_interval),
+                           E.loc_outcome(lambda: t2.chromosome_intron_location), E.loc_outcome(lambda: t2.chromosome_span)])
         if rnd.random() < 0.35:
             # the same transcript built on a sequence chunk (enclosing it, cutting it, or missing its CDS): every
             # chromosome-level conversion must answer as on the whole chromosome (txpos, as C07 records them)
